@@ -264,8 +264,8 @@ def run(ck):
                          "validate_grid_manager_certificate returned %r, independent ed25519 verify says %r" % (got, ok),
                          {"kind": c.kind, "certificate": c.cert, "signature": c.sig, "key": key.pub_s})
 
-    ncases = 900 if ck.tier == "quick" else 6000
-    nsweeps = 2 if ck.tier == "quick" else 10
+    ncases = 3000 if ck.tier == "quick" else 12000
+    nsweeps = 4 if ck.tier == "quick" else 12
 
     # ------------------------------------------------------------ 1. tamper sweeps (complete per base certificate)
     for s in range(nsweeps):
@@ -441,5 +441,13 @@ def run(ck):
     ck.exhaustive = False
 
 
-# MUST_CATCH (scratch copies of /repo/src, VF_REPO=... ./check C33; all restored/removed afterwards)
-#   see the table at the end of the final report; filled in after self-test.
+# MUST_CATCH -- planted in grid_manager.py of a scratch copy (VF_REPO=/var/tmp/auth_st/... ./check C33), removed afterwards.
+#   `if expires > now:` -> `if expires < now:` (inverted) ....................... caught: denies-despite-good-certificate, permits-without-good-certificate
+#   `if expires > now:` -> `if True:` (expiry never checked) .................... caught: permits-without-good-certificate
+#   `if pc == public_key:` -> `if True:` (subject comparison dropped) ........... caught: permits-without-good-certificate
+#   validate_grid_manager_certificate ignores BadSignature ...................... caught: validate-certificate-signature-mismatch,
+#                                                                                        permits-without-good-certificate, hostile-certificate-raises
+#   `for key in keys:` -> `for key in keys[:1]:` (only first manager key) ....... caught: denies-despite-good-certificate
+#   no keys -> `lambda: False` .................................................. caught: denies-despite-good-certificate
+#   validate() returns at the first certificate naming the server (even expired)  caught: denies-despite-good-certificate
+#   NOT catchable by design: `expires > now` -> `expires >= now` (the equality instant is dont_care in the statement).
